@@ -353,7 +353,7 @@ def decide(prop, ob, tier, seed, workroot, keep=False):
             R['status'] = 'budget' if rc == -9 or 'std::bad_alloc' in se or 'Out of memory' in txt or rc in (-6, 134, 137, -9) else 'error'
             R['detail'] = 'no verdict within %ds/%dGB (rc=%s) %s %s' % (timeout, mem, rc, msgs, se[-500:])
             return R
-        failed_asserts = []; unreached = []; other_fail = []
+        failed_asserts = []; unreached = []; other_fail = []; unknown = []
         nreach = 0
         for r in results:
             kind, line = classify(r.get('description', ''))
@@ -363,6 +363,8 @@ def decide(prop, ob, tier, seed, workroot, keep=False):
                 nreach += 1
                 if st == 'FAILURE': R['reach'] += 1
                 elif line not in ob.expect_unreached: unreached.append(line)
+            elif st not in ('SUCCESS', 'FAILURE'):
+                unknown.append(r['property'])      # CBMC reports UNKNOWN for properties behind a failing one: neither proved nor refuted
             elif kind == 'vassert':
                 if st == 'SUCCESS': R['proved'] += 1; R['asserts_proved'] += 1
                 else: failed_asserts.append((r['property'], line, r.get('description', '')))
@@ -374,6 +376,8 @@ def decide(prop, ob, tier, seed, workroot, keep=False):
                 else: failed_asserts.append((r['property'], -1, r.get('description', '')))
         if other_fail:
             R['status'] = 'error'; R['detail'] = '; '.join(other_fail[:5]); return R
+        if unknown and not failed_asserts:
+            R['status'] = 'error'; R['detail'] = '%d properties with status UNKNOWN and no refuted one (e.g. %s)' % (len(unknown), unknown[0]); return R
         if nreach == 0:
             R['status'] = 'error'; R['detail'] = 'harness has no reachability witness'; return R
         if unreached and not failed_asserts:
@@ -382,7 +386,13 @@ def decide(prop, ob, tier, seed, workroot, keep=False):
             findings, fixed = load_known()
             failed_lines = set(l for (_, l, _) in failed_asserts if l > 0)
             seen_keys = set()
+            # memory-safety checks (line -1): one corrupted write makes hundreds of later checks fail - a few traces are enough; the first
+            # one that reproduces natively (sanitizer report / crash) is THE violation, checks whose trace cannot be obtained are skipped
+            mem_checks = [f for f in failed_asserts if f[1] == -1]
+            failed_asserts = [f for f in failed_asserts if f[1] != -1] + mem_checks[:4]
+            mem_confirmed = False; mem_tried = 0
             for (pname, line, desc) in failed_asserts:
+                if line == -1 and mem_confirmed: continue
                 key = '%s:L%d' % (ob.name, line)
                 # counterexample trace for this property
                 # (a sliced trace may take arbitrary branches outside the cone of influence of the property, which misaligns the nondet stream:
@@ -398,6 +408,7 @@ def decide(prop, ob, tier, seed, workroot, keep=False):
                         if r.get('property') == pname and r.get('status') == 'FAILURE': trace = r.get('trace')
                     if trace is None:
                         if not use_slice: break    # no unsliced trace within the budget: the verdict of the sliced pass (unconfirmed) stands
+                        if line == -1: break       # try the next failing memory check
                         R['status'] = 'error'; R['detail'] = 'could not obtain trace for %s' % pname; return R
                     stream = extract_stream(trace)
                     rcn, outn, errn = replay_native(ob, W, stream)
@@ -412,6 +423,12 @@ def decide(prop, ob, tier, seed, workroot, keep=False):
                     elif line == -1 and (rcn not in (0, 10, 12) or 'ERROR: AddressSanitizer' in errn or 'runtime error' in errn):
                         confirmed = True; how = 'native run crashed / sanitizer report: ' + (errn.strip().split('\n')[0] if errn.strip() else 'rc=%d' % rcn)
                     if confirmed: break
+                if line == -1:
+                    mem_tried += 1
+                    if trace is None or not confirmed:
+                        if mem_tried < len(mem_checks[:4]): continue     # another failing check may reproduce
+                        if trace is None: R['status'] = 'error'; R['detail'] = 'could not obtain a trace for any of the failing memory checks (%s ...)' % pname; return R
+                    else: mem_confirmed = True
                 rp = dict(property=prop, obligation=ob.name, tier=tier, assertion_line=line, cbmc_property=pname, description=desc,
                           stream=stream, native_output=outn[-500:], native_stderr=errn[-1500:], confirmed=confirmed, how=how,
                           harness=ob.harness, defines=ob.defines)
@@ -527,6 +544,7 @@ def write_evidence(prop, tier, seed, results, wall, viol, known, errors):
                   solver='cbmc 6.11 (CaDiCaL SAT back end), --unwinding-assertions', solver_time_s=round(sum(r['cbmc_s'] for r in results), 1),
                   peak_rss_kb=max([r['rss_kb'] for r in results] or [0]),
                   translator_diff_runs=sum((r['diff'] or {}).get('streams', 0) for r in results),
+                  traces_validated_against_impl=sum((r['diff'] or {}).get('streams', 0) for r in results),   # input streams executed by BOTH the encoding (generated C) and a native build of the real sources, outcomes compared
                   outside_bounds=meta.get('outside', ''), known_findings_hit=[k['key'] for k in known],
                   errors=[dict(obligation=r['name'], status=r['status'], detail=r['detail'][:500]) for r in errors],
                   explanation=meta.get('explanation', ''), exhaustive=False),
